@@ -8,8 +8,8 @@ CODES = {"OV_FALSE", "OV_EOF", "OV_HOLE", "OV_EREAD", "OV_EFAULT", "OV_EIMPL", "
          "OV_EVERSION", "OV_ENOTAUDIO", "OV_EBADPACKET", "OV_EBADLINK", "OV_ENOSEEK"}
 
 
-def gen_open_case(rng, i, k, kind, persist):
-    links = V.gen_links(rng, rng.choice([1, 2, 3]), tiny=True)
+def gen_open_case(rng, i, k, kind, persist, nl=None):
+    links = V.gen_links(rng, nl or rng.choice([1, 2, 3]), tiny=True)
     sk = rng.choice([1, 1, 1, 0])
     # the fault-free twin first: its link table is what a successful open has to find
     ops = ["case %d" % i] + links + ["ref 0", "open 1 %d 4096" % sk, "open 0 %d %d %d %d %d" % (sk, rng.choice([4096, 513, 64]), k, kind, persist)]
@@ -21,7 +21,7 @@ def gen_case(rng, i, tier):
     links = V.gen_links(rng, rng.choice([1, 2, 2, 3]))
     lens = [int(l.split(" ")[4]) for l in links]
     total = sum(lens)
-    ops = ["case %d" % i] + links + V.gen_splits(rng, links) + ["ref 0", "open 0 1 %d" % rng.choice([4096, 513, 64, 100000]), "open 1 1 4096"]
+    ops = ["case %d" % i] + V.with_mux(rng, links, p=0.2) + V.gen_splits(rng, links) + ["ref 0", "open 0 1 %d" % rng.choice([4096, 513, 64, 100000]), "open 1 1 4096"]
 
     def someop(slot):
         r = rng.random()
@@ -160,6 +160,11 @@ def run(chk):
             for persist in ((0, 1) if (chk.tier == "thorough" or k % 3 == 0) else (1,)):
                 cases.append(gen_open_case(chk.rng, i, k, kind, persist))
                 i += 1
+            # one-shot faults inside the open-time scan of chains: every index, two and three links (the scan recurses once per link, and
+            # what a level leaves behind when its own page search fails after the deeper levels succeeded is only seen there)
+            for nl in ((2, 3) if kind in (1, 2, 4) else (2,)):
+                cases.append(gen_open_case(chk.rng, i, k, kind, 0, nl))
+                i += 1
     n = 150 if chk.tier == "quick" else 3000
     cases += [gen_case(chk.rng, i + j, chk.tier) for j in range(n)]
     fired = 0
@@ -181,7 +186,7 @@ def run(chk):
                 chk.note_case("|".join(o for o in d["ops"] if o.startswith(("link", "fault", "open"))), True,
                               {"ops": d["ops"][1:10], "answers": [a for _, a in d["ans"] if isinstance(a, str)][:10]})
     chk.coverage["rule"] = ("(a) for every callback invocation index 0..N during ov_open_callbacks (N=23 quick, 89 thorough) and every fault kind (read error with errno, zero read, "
-                            "one-byte read, seek -1, tell -1), one-shot and persisting: failed open must leave the handle zeroed and the source unclosed; "
+                            "one-byte read, seek -1, tell -1), one-shot and persisting, one-shot faults at every index on chains of two and of three links: failed open must leave the handle zeroed and the source unclosed; "
                             "(b) random histories in which a fault is armed k callbacks ahead, 1-3 calls run under it, the fault is lifted, then the same seek + tell + 3 reads are "
                             "issued on the handle and on a twin that never saw a failure: the answer lines (return codes, positions, bit-exact data flag) must coincide; "
                             "run under ASan/UBSan and again un-instrumented with MALLOC_PERTURB_")
